@@ -59,12 +59,13 @@ class Gen:
     """Random models.  p_* knobs let a check bias the shapes it cares about."""
 
     def __init__(self, rnd, max_depth=4, p_alias=0.1, p_anchor=0.15, p_tag=0.25, max_docs=3, tags=True,
-                 core_tags_only=False, plain_pool=None):
+                 core_tags_only=False, plain_pool=None, empty_keys=True):
         self.r = rnd
         self.max_depth = max_depth
         self.p_alias, self.p_anchor, self.p_tag = p_alias, p_anchor, (p_tag if tags else 0.0)
         self.max_docs = max_docs
         self.core_tags_only = core_tags_only
+        self.empty_keys = empty_keys
         self.plain_pool = plain_pool or PLAIN
         self.classes = set()
 
@@ -190,6 +191,17 @@ class Gen:
             n = Q([], fl, self.tag_for('q'), anchor)
             n.items = [self.node(depth + 1, fl) for _ in range(r.randint(0, 3))]
             self.classes.add('flowseq' if fl else 'blockseq')
+            if fl:
+                # single-pair mappings written without braces inside a flow sequence: [a: b], [? a : b], [? a], [?]
+                for it in n.items:
+                    if isinstance(it, M) and len(it.pairs) == 1 and not it.anchor and not it.tag and r.random() < 0.6:
+                        it.sp = True
+                        self.classes.add('flow_single_pair')
+                if self.empty_keys and r.random() < 0.06:
+                    it = M([(S('', 'plain'), S(r.choice(['', 'v', '1']), 'plain'))], True)
+                    it.sp = True
+                    n.items.insert(r.randint(0, len(n.items)), it)
+                    self.classes.add('flow_single_pair_empty_key')
         else:
             n = M([], fl, self.tag_for('m'), anchor)
             for _ in range(r.randint(0, 3)):
@@ -438,7 +450,7 @@ class Render:
             return (p + ' ' + body) if p else body
         pre = (p + ' ') if p else ''
         if isinstance(n, Q):
-            parts = [self.flow(i, indent, oneline) for i in n.items]
+            parts = [self.single_pair(i, indent, oneline) if getattr(i, 'sp', False) else self.flow(i, indent, oneline) for i in n.items]
             return pre + '[' + sp() + (',' + sp()).join(x + (' ' if x.startswith('*') else '') for x in parts) + \
                 (r.choice(['', ',']) if parts else '') + sp() + ']'
         parts = []
@@ -452,6 +464,24 @@ class Render:
             else:
                 parts.append('? ' + ks + ' : ' + vs + (' ' if vs.startswith('*') else ''))
         return pre + '{' + sp() + (',' + sp()).join(parts) + sp() + '}'
+
+    def single_pair(self, n, indent, oneline):
+        """A one-pair mapping written without braces as an item of a flow sequence."""
+        r = self.r
+        k, v = n.pairs[0]
+        kempty = isinstance(k, S) and k.style == 'plain' and k.value == '' and not k.tag and not k.anchor
+        vempty = isinstance(v, S) and v.style == 'plain' and v.value == '' and not v.tag and not v.anchor
+        ks = '' if kempty else self.flow(k, indent, True)
+        vs = '' if vempty else self.flow(v, indent, oneline)
+        tail = ' ' if vs.startswith('*') else ''
+        if kempty:
+            return '?' + ('' if vempty else ' : ' + vs + tail)
+        if vempty:
+            return '? ' + ks + (' ' if ks.startswith('*') else '')
+        simple = isinstance(k, (S, A)) and len(ks) < 100 and '\n' not in ks
+        if simple and r.random() < 0.7:
+            return ks + (' ' if (isinstance(k, A) or k.style == 'plain') else r.choice(['', ' '])) + ': ' + vs + tail
+        return '? ' + ks + ' : ' + vs + tail
 
     def block(self, n, indent, prefix):
         r = self.r
